@@ -79,6 +79,9 @@ class Report:
         if nun:
             why = next(r.get("why") for r in ex.results if r["status"] == "unsupported")
             self.inconclusive.append("%s: %d path(s) left the modelled fragment (%s): not covered by the claim" % (name, nun, why))
+        nk = sum(1 for r in ex.results if r["status"] == "unknown")
+        if nk:
+            self.inconclusive.append("%s: the solver gave no verdict on %d path(s) within the time-out: not covered by the claim" % (name, nk))
         nb = sum(1 for r in ex.results if r["status"] == "budget")
         if nb:
             self.inconclusive.append("%s: %d path(s) exceeded the per-path budget (%s)" % (name, nb, next(r.get("why") for r in ex.results if r["status"] == "budget")))
